@@ -1,4 +1,5 @@
 import Tickit.Proof.LifeMouse
+import Tickit.Proof.LifeTop
 /-
   C08 proofs, part 9a: key events delivered to window handlers with ANY actions (`tickit_window_unref` included).
 
@@ -128,15 +129,35 @@ theorem FK.setX_same {g : Ghost} {st : St} (K : FK g st) (i : Nat) (x : WinX) (h
   intro j w hl
   rw [hget]; exact K.ex j w hl
 
+/-- What every step of the routing does to the tree: it keeps its size, only removes parent links, and brings no
+    window back to life. -/
+structure Shr (st st' : St) : Prop where
+  size : st'.tree.wins.size = st.tree.wins.size
+  psub : PSub st.tree st'.tree
+  back : ∀ (i : Nat) (w' : Win), LiveW st'.tree i w' → ∃ w, LiveW st.tree i w
+
+theorem Shr.refl (st : St) : Shr st st := ⟨rfl, PSub.refl _, fun _ w h => ⟨w, h⟩⟩
+
+theorem Shr.trans {a b c : St} (h1 : Shr a b) (h2 : Shr b c) : Shr a c :=
+  ⟨h2.size.trans h1.size, h1.psub.trans h2.psub, fun i w' hl' => by
+    obtain ⟨w, hl⟩ := h2.back i w' hl'
+    exact h1.back i w hl⟩
+
+theorem Shr.of_tree {st st' : St} (h : st'.tree = st.tree) : Shr st st' :=
+  ⟨by rw [h], by rw [h]; exact PSub.refl _, fun i w hl => ⟨w, by rw [← h]; exact hl⟩⟩
+
+/-- A chain of parents after is one before. -/
+theorem Shr.reach {st st' : St} (h : Shr st st') {i a : Nat} (hr : Reach st'.tree i a) : Reach st.tree i a := h.psub.reach hr
+
 /-- `tickit_window_unref` by a handler (or the application) while frames hold references: the cascade, if there is
     one, starts at a window no frame holds and therefore touches none the frames hold; every child a dying parent
     drops is held by the application, so that the tally follows the count. -/
 theorem unrefW_FK {cfg : Cfg} (R : Repaired cfg) {g : Ghost} {st : St} (K : FK g st) {x : Nat} (hh : heldW st x = true) :
     ∃ st', unrefW cfg (setX st x { getX st x with appRefs := (getX st x).appRefs - 1 }) x = .ok st' ∧ FK g st' ∧
-      st'.tree.wins.size = st.tree.wins.size := by
+      Shr st st' := by
   obtain ⟨xw, hxl, hpos⟩ := heldW_spec hh
   obtain ⟨st', hu, inv', hsz, _, _, _, dead, dropped, hcnt, happ, hreach, hsurv, hps, hlast, hdgt, hdeadf⟩ := unrefW_ok R K.inv hh
-  refine ⟨st', hu, ?_, hsz⟩
+  refine ⟨st', hu, ?_, ⟨hsz, hps, fun i w' hl' => by obtain ⟨w, hl, _⟩ := hcnt i w' hl'; exact ⟨w, hl⟩⟩⟩
   -- a cascade there is only if no frame holds `x`
   have hgx : (dead ≠ [] ∨ dropped ≠ []) → g.win x = 0 := by
     intro hne
@@ -194,5 +215,358 @@ theorem unrefW_FK {cfg : Cfg} (R : Repaired cfg) {g : Ghost} {st : St} (K : FK g
     have : w0 = w := by rw [hl.1] at hw0; exact (Option.some.inj hw0).symm
     subst this
     exact K.disc c w0 p hl hp0 hg
+
+/-! ## the frames take and give back references -/
+
+def Ghost.bumpW (g : Ghost) (w : Nat) : Ghost := { g with win := fun j => if j = w then g.win j + 1 else g.win j }
+def Ghost.unbumpW (g : Ghost) (w : Nat) : Ghost := { g with win := fun j => if j = w then g.win j - 1 else g.win j }
+
+@[simp] theorem Ghost.bumpW_self (g : Ghost) (w : Nat) : (g.bumpW w).win w = g.win w + 1 := by simp [Ghost.bumpW]
+theorem Ghost.bumpW_ne (g : Ghost) {w j : Nat} (h : j ≠ w) : (g.bumpW w).win j = g.win j := by simp [Ghost.bumpW, h]
+@[simp] theorem Ghost.unbumpW_self (g : Ghost) (w : Nat) : (g.unbumpW w).win w = g.win w - 1 := by simp [Ghost.unbumpW]
+theorem Ghost.unbumpW_ne (g : Ghost) {w j : Nat} (h : j ≠ w) : (g.unbumpW w).win j = g.win j := by simp [Ghost.unbumpW, h]
+theorem Ghost.unbump_bumpW (g : Ghost) (w : Nat) : (g.bumpW w).unbumpW w = g := by
+  cases g
+  simp only [Ghost.bumpW, Ghost.unbumpW, Ghost.mk.injEq, true_and]
+  funext j
+  split <;> simp_all
+
+/-- A frame takes a reference on a live window whose parent (if it has one) a frame holds. -/
+theorem FK.refI {g : Ghost} {st : St} (K : FK g st) {win : Nat} {ww : Win} (hw : LiveW st.tree win ww)
+    (hpar : ∀ p, ww.parent = some p → 0 < g.win p) :
+    ∃ st', refW st win = .ok st' ∧ FK (g.bumpW win) st' ∧ Shr st st' ∧ st'.wx = st.wx := by
+  unfold refW
+  simp only [getW, get_live hw, bind_ok, pure_ok]
+  refine ⟨_, rfl, ?_, ⟨set_size _ _ _, ?_, ?_⟩, rfl⟩
+  · have hex := K.exact hw
+    have hl0 : LiveW (WinTree.set st.tree win { ww with refcount := ww.refcount + 1 }) win { ww with refcount := ww.refcount + 1 } :=
+      ⟨set_get_self _ hw.lt, hw.2⟩
+    have inv' : SInv (g.bumpW win) (setW st win { ww with refcount := ww.refcount + 1 }) := by
+      refine K.inv.set_refcount hw (ww.refcount + 1) rfl (fun j hj => Ghost.bumpW_ne g hj) ⟨?_, fun _ => ?_⟩ (by have := K.inv.rc win ww hw; omega)
+      · rw [Ghost.bumpW_self]; push_cast; omega
+      · rw [Ghost.bumpW_self]; push_cast; omega
+    refine ⟨inv', ?_, ?_, ?_⟩
+    · intro i w' hl'
+      have hl'' : LiveW (WinTree.set st.tree win { ww with refcount := ww.refcount + 1 }) i w' := hl'
+      by_cases hi : win = i
+      · subst hi
+        have := LiveW.unique hl'' hl0; subst this
+        show ((getX st win).appRefs : Int) + ((g.bumpW win).win win : Int) ≤ ww.refcount + 1
+        rw [Ghost.bumpW_self]; push_cast; omega
+      · rw [Ghost.bumpW_ne g (Ne.symm hi)]
+        exact K.ex i w' ⟨by rw [← set_get_ne _ hi]; exact hl''.1, hl''.2⟩
+    · intro i hg
+      by_cases hi : win = i
+      · subst hi; exact ⟨_, hl0⟩
+      · rw [Ghost.bumpW_ne g (Ne.symm hi)] at hg
+        obtain ⟨w, hl⟩ := K.held i hg
+        exact ⟨w, by show (WinTree.set st.tree win _).wins[i]? = some w; rw [set_get_ne _ hi]; exact hl.1, hl.2⟩
+    · intro c cw p hl' hp hg
+      have hl'' : LiveW (WinTree.set st.tree win { ww with refcount := ww.refcount + 1 }) c cw := hl'
+      have hgp : 0 < g.win p := by
+        by_cases hc : win = c
+        · subst hc
+          have := LiveW.unique hl'' hl0; subst this
+          exact hpar p hp
+        · rw [Ghost.bumpW_ne g (Ne.symm hc)] at hg
+          exact K.disc c cw p ⟨by rw [← set_get_ne _ hc]; exact hl''.1, hl''.2⟩ hp hg
+      by_cases hpw : p = win
+      · subst hpw; rw [Ghost.bumpW_self]; omega
+      · rw [Ghost.bumpW_ne g hpw]; exact hgp
+  · intro i w' p hw' hp'
+    by_cases hi : win = i
+    · subst hi
+      have hw'' : (WinTree.set st.tree win { ww with refcount := ww.refcount + 1 }).wins[win]? = some w' := hw'
+      rw [set_get_self _ hw.lt] at hw''; cases hw''
+      exact ⟨ww, hw.1, hp'⟩
+    · have hw'' : (WinTree.set st.tree win { ww with refcount := ww.refcount + 1 }).wins[i]? = some w' := hw'
+      rw [set_get_ne _ hi] at hw''; exact ⟨w', hw'', hp'⟩
+  · intro i w' hl'
+    have hl'' : LiveW (WinTree.set st.tree win { ww with refcount := ww.refcount + 1 }) i w' := hl'
+    by_cases hi : win = i
+    · subst hi; exact ⟨ww, hw⟩
+    · exact ⟨w', by rw [← set_get_ne _ hi]; exact hl''.1, hl''.2⟩
+
+/-- A frame gives a reference back; if it was the last one the window is destroyed - no child of it being held. -/
+theorem FK.unrefI {cfg : Cfg} (R : Repaired cfg) {g : Ghost} {st : St} (K : FK g st) {win : Nat} (hg : 0 < g.win win)
+    (hch : g.win win = 1 → ∀ (c : Nat) (cw : Win), LiveW st.tree c cw → cw.parent = some win → g.win c = 0) :
+    ∃ st', unrefW cfg st win = .ok st' ∧ FK (g.unbumpW win) st' ∧ Shr st st' := by
+  obtain ⟨ww, hw⟩ := K.held win hg
+  have hxlt : win < st.wx.size := by rw [K.inv.wx_size]; exact hw.lt
+  let xp : WinX := { getX st win with appRefs := (getX st win).appRefs + 1 }
+  have hsum : ∀ i, (((getX (setX st win xp) i).appRefs : Nat) : Int) + (((g.unbumpW win).win i : Nat) : Int) =
+      ((getX st i).appRefs : Int) + (g.win i : Int) := by
+    intro i
+    rw [getX_setX]
+    by_cases hi : win = i
+    · subst hi
+      simp only [hxlt, and_self, if_true, Ghost.unbumpW_self]
+      show (((getX st win).appRefs + 1 : Nat) : Int) + ((g.win win - 1 : Nat) : Int) = _
+      omega
+    · simp only [hi, false_and, if_false]
+      rw [Ghost.unbumpW_ne g (Ne.symm hi)]
+  have invB : SInvB g (setX st win xp) [] := K.inv.toSInvB.of_wx rfl rfl rfl rfl rfl (setX_map_pen _ rfl)
+  have KP : FK (g.unbumpW win) (setX st win xp) := by
+    refine ⟨⟨⟨invB.tinv, invB.wx_size, invB.rc, invB.pend_nodup, invB.pend_freed, invB.dead_pen, invB.pens,
+      invB.term_held, invB.term_free, invB.term_dead, invB.simple⟩, ?_, ?_⟩, ?_, ?_, ?_⟩
+    · intro i w hl
+      have hl' : LiveW st.tree i w := hl
+      have h1 := K.exact hl'
+      have := hsum i
+      exact ⟨by omega, fun _ => by omega⟩
+    · intro h0
+      by_cases hi : win = 0
+      · subst hi; exact ⟨ww, hw⟩
+      · rw [Ghost.unbumpW_ne g (fun e => hi e.symm)] at h0
+        exact K.inv.glive h0
+    · intro i w hl
+      have hl' : LiveW st.tree i w := hl
+      have h1 := K.exact hl'
+      have := hsum i
+      omega
+    · intro i hgi
+      by_cases hi : win = i
+      · subst hi; exact ⟨ww, hw⟩
+      · rw [Ghost.unbumpW_ne g (Ne.symm hi)] at hgi
+        exact K.held i hgi
+    · intro c cw p hl hp hgc
+      have hl' : LiveW st.tree c cw := hl
+      have hgc' : 0 < g.win c := by
+        by_cases hc : win = c
+        · subst hc; exact hg
+        · rw [Ghost.unbumpW_ne g (Ne.symm hc)] at hgc; exact hgc
+      have hgp := K.disc c cw p hl' hp hgc'
+      by_cases hpw : p = win
+      · subst hpw
+        rw [Ghost.unbumpW_self]
+        apply Classical.byContradiction
+        intro hn
+        have h1 : g.win p = 1 := by omega
+        have hc0 := hch h1 c cw hl' hp
+        have hcp : c ≠ p := by
+          have := (K.inv.tinv.parent_ok c cw hl' p hp).1
+          omega
+        rw [Ghost.unbumpW_ne g hcp] at hgc
+        omega
+      · rw [Ghost.unbumpW_ne g hpw]; exact hgp
+  have hh : heldW (setX st win xp) win = true := by
+    unfold heldW
+    simp only [setX_tree, hw.1, hw.2, Bool.not_false, Bool.true_and, getX_setX_self _ hxlt]
+    simp [xp]
+  obtain ⟨st', hu, K', S'⟩ := unrefW_FK R KP hh
+  have hback : setX (setX st win xp) win { getX (setX st win xp) win with appRefs := (getX (setX st win xp) win).appRefs - 1 } = st := by
+    rw [getX_setX_self _ hxlt]
+    have : ({ xp with appRefs := xp.appRefs - 1 } : WinX) = getX st win := by
+      show ({ getX st win with appRefs := (getX st win).appRefs + 1 - 1 } : WinX) = getX st win
+      rw [Nat.add_sub_cancel]
+    rw [this]
+    exact setX_setX_getX st win xp
+  rw [hback] at hu
+  exact ⟨st', hu, K', ⟨S'.size, S'.psub, S'.back⟩⟩
+
+/-! ## what a handler does -/
+
+theorem FK.set_log {g : Ghost} {st : St} (K : FK g st) (l : List String) : FK g { st with log := l } :=
+  ⟨K.inv.of_log l, K.ex, K.held, K.disc⟩
+
+/-- One call of a handler, whatever it is: skipped, or done with the invariant of the frames intact. -/
+theorem simpleOp_FK {cfg : Cfg} (R : Repaired cfg) {g : Ghost} {st : St} (K : FK g st) (a : Act) (self : Option (Id × Int)) :
+    simpleOp cfg st a self = none ∨ ∃ st', simpleOp cfg st a self = some (.ok st') ∧ FK g st' ∧ Shr st st' := by
+  cases a <;> simp only [simpleOp]
+  case unref w =>
+    by_cases hh : heldW st w = true
+    · right
+      simp only [hh, if_true]
+      obtain ⟨st', hu, K', S'⟩ := unrefW_FK R K hh
+      exact ⟨st', by rw [hu], K', S'⟩
+    · left; simp only [hh, Bool.false_eq_true, if_false]
+  case ref w =>
+    by_cases hh : heldW st w = true
+    · right
+      obtain ⟨ww, hw, _⟩ := heldW_spec hh
+      simp only [hh, if_true]
+      have hlt : w < st.wx.size := by rw [K.inv.wx_size]; exact hw.lt
+      obtain ⟨st1, h1, inv1⟩ := refW_ok K.inv hw
+      have hst1 : st1 = setW (setX st w { getX st w with appRefs := (getX st w).appRefs + 1 }) w { ww with refcount := ww.refcount + 1 } := by
+        unfold refW at h1
+        simp only [getW, setX_tree, get_live hw, bind_ok, pure_ok, Out.ok.injEq] at h1
+        exact h1.symm
+      have hl0 : LiveW (WinTree.set st.tree w { ww with refcount := ww.refcount + 1 }) w { ww with refcount := ww.refcount + 1 } :=
+        ⟨set_get_self _ hw.lt, hw.2⟩
+      refine ⟨st1, by rw [h1], ⟨inv1, ?_, ?_, ?_⟩, ?_⟩
+      · intro i w' hl'
+        rw [hst1] at hl' ⊢
+        have hl'' : LiveW (WinTree.set st.tree w { ww with refcount := ww.refcount + 1 }) i w' := hl'
+        show ((getX (setX st w { getX st w with appRefs := (getX st w).appRefs + 1 }) i).appRefs : Int) + _ ≤ _
+        rw [getX_setX]
+        by_cases hi : w = i
+        · subst hi
+          have := LiveW.unique hl'' hl0; subst this
+          simp only [hlt, and_self, if_true]
+          have := K.ex w ww hw
+          show (((getX st w).appRefs + 1 : Nat) : Int) + (g.win w : Int) ≤ ww.refcount + 1
+          omega
+        · simp only [hi, false_and, if_false]
+          exact K.ex i w' ⟨by rw [← set_get_ne _ hi]; exact hl''.1, hl''.2⟩
+      · intro i hg
+        rw [hst1]
+        obtain ⟨wi, hli⟩ := K.held i hg
+        by_cases hi : w = i
+        · subst hi; exact ⟨_, hl0⟩
+        · exact ⟨wi, by show (WinTree.set st.tree w _).wins[i]? = some wi; rw [set_get_ne _ hi]; exact hli.1, hli.2⟩
+      · intro c cw p hl' hp hg
+        rw [hst1] at hl'
+        have hl'' : LiveW (WinTree.set st.tree w { ww with refcount := ww.refcount + 1 }) c cw := hl'
+        by_cases hc : w = c
+        · subst hc
+          have := LiveW.unique hl'' hl0; subst this
+          exact K.disc w ww p hw hp hg
+        · exact K.disc c cw p ⟨by rw [← set_get_ne _ hc]; exact hl''.1, hl''.2⟩ hp hg
+      · rw [hst1]
+        refine ⟨set_size _ _ _, ?_, ?_⟩
+        · intro i w' p hw' hp'
+          have hw'' : (WinTree.set st.tree w { ww with refcount := ww.refcount + 1 }).wins[i]? = some w' := hw'
+          by_cases hi : w = i
+          · subst hi
+            rw [set_get_self _ hw.lt] at hw''; cases hw''
+            exact ⟨ww, hw.1, hp'⟩
+          · rw [set_get_ne _ hi] at hw''; exact ⟨w', hw'', hp'⟩
+        · intro i w' hl'
+          have hl'' : LiveW (WinTree.set st.tree w { ww with refcount := ww.refcount + 1 }) i w' := hl'
+          by_cases hi : w = i
+          · subst hi; exact ⟨ww, hw⟩
+          · exact ⟨w', by rw [← set_get_ne _ hi]; exact hl''.1, hl''.2⟩
+    · left; simp only [hh, Bool.false_eq_true, if_false]
+  case close w =>
+    by_cases hh : heldW st w = true
+    · right
+      obtain ⟨ww, hw, _⟩ := heldW_spec hh
+      simp only [hh, if_true]
+      obtain ⟨t', hc, C⟩ := closeT_ok R.closePurges R.dragForgottenOnClose K.inv.tinv hw
+      have K' := K.of_closed hw C
+      refine ⟨_, by rw [liftT_ok hc], K', ⟨C.size_eq, ?_, ?_⟩⟩
+      · intro i w' p hw' hp'
+        have hw'' : t'.wins[i]? = some w' := hw'
+        cases h0 : st.tree.wins[i]? with
+        | none =>
+          have hlt : ¬ i < st.tree.wins.size := by
+            intro hlt
+            have := Array.getElem?_eq_getElem (xs := st.tree.wins) hlt
+            rw [h0] at this; cases this
+          have : t'.wins[i]? = none := Array.getElem?_eq_none (by rw [C.size_eq]; omega)
+          rw [hw''] at this; cases this
+        | some w0 =>
+          by_cases hi : i = w
+          · subst hi
+            rw [C.win_now.1] at hw''; cases hw''
+            cases hp'
+          · rcases C.others i w0 hi h0 with ⟨_, h⟩ | ⟨_, h⟩
+            · rw [hw''] at h; cases h; exact ⟨w', rfl, hp'⟩
+            · rw [hw''] at h; cases h; exact ⟨w0, rfl, hp'⟩
+      · intro i w' hl'
+        have hl'' : LiveW t' i w' := hl'
+        cases h0 : st.tree.wins[i]? with
+        | none =>
+          have hlt : ¬ i < st.tree.wins.size := by
+            intro hlt
+            have := Array.getElem?_eq_getElem (xs := st.tree.wins) hlt
+            rw [h0] at this; cases this
+          have : t'.wins[i]? = none := Array.getElem?_eq_none (by rw [C.size_eq]; omega)
+          rw [hl''.1] at this; cases this
+        | some w0 =>
+          by_cases hi : i = w
+          · subst hi; exact ⟨ww, hw⟩
+          · rcases C.others i w0 hi h0 with ⟨_, h⟩ | ⟨_, h⟩
+            · rw [hl''.1] at h; cases h; exact ⟨w', h0, hl''.2⟩
+            · rw [hl''.1] at h; cases h; exact ⟨w0, h0, hl''.2⟩
+    · left; simp only [hh, Bool.false_eq_true, if_false]
+  case restack c w =>
+    by_cases hh : (usableW st w && isRestack c) = true
+    · right
+      simp only [hh, if_true]
+      simp only [Bool.and_eq_true] at hh
+      obtain ⟨⟨ww, hw⟩, hreach⟩ := usableW_spec K.inv.tinv hh.1
+      obtain ⟨t', hq, inv', hwins⟩ := request_ok K.inv.tinv hh.2 hw hreach
+      have hrel : TRel st.tree t' := trel_of_wins hwins
+      have K' := K.of_rel inv' hrel (SameRC.of_wins hwins)
+      exact ⟨_, by rw [liftT_ok hq], K', ⟨by rw [hwins], PSub.of_wins hwins, fun i w' hl' => ⟨w', by rw [← hwins]; exact hl'.1, hl'.2⟩⟩⟩
+    · left; simp only [hh, Bool.false_eq_true, if_false]
+  case hide w =>
+    by_cases hh : usableW st w = true
+    · right
+      simp only [hh, if_true]
+      obtain ⟨⟨ww, hw⟩, _⟩ := usableW_spec K.inv.tinv hh
+      obtain ⟨t', hq, inv', hrel, hrc⟩ := hideT_ok K.inv.tinv hw
+      exact ⟨_, by rw [liftT_ok hq], K.of_rel inv' hrel hrc, ⟨hrel.1, fun i w' p hw' hp' => by
+        obtain ⟨w0, hw0, hr⟩ := hrel.back hw'; exact ⟨w0, hw0, by rw [← hr.1]; exact hp'⟩,
+        fun i w' hl' => by obtain ⟨w0, hl0, _⟩ := hrel.live_back hl'; exact ⟨w0, hl0⟩⟩⟩
+    · left; simp only [hh, Bool.false_eq_true, if_false]
+  case «show» w =>
+    by_cases hh : usableW st w = true
+    · right
+      simp only [hh, if_true]
+      obtain ⟨⟨ww, hw⟩, _⟩ := usableW_spec K.inv.tinv hh
+      obtain ⟨t', hq, inv', hrel, hrc⟩ := showT_ok K.inv.tinv hw
+      exact ⟨_, by rw [liftT_ok hq], K.of_rel inv' hrel hrc, ⟨hrel.1, fun i w' p hw' hp' => by
+        obtain ⟨w0, hw0, hr⟩ := hrel.back hw'; exact ⟨w0, hw0, by rw [← hr.1]; exact hp'⟩,
+        fun i w' hl' => by obtain ⟨w0, hl0, _⟩ := hrel.live_back hl'; exact ⟨w0, hl0⟩⟩⟩
+    · left; simp only [hh, Bool.false_eq_true, if_false]
+  case flush =>
+    by_cases hh : heldW st 0 = true
+    · right
+      simp only [hh, if_true]
+      obtain ⟨r, hr⟩ := heldW_live hh
+      obtain ⟨t', hq, inv', hrel, _, _, hrc⟩ := flushT_ok K.inv.tinv hr
+      exact ⟨_, by rw [liftT_ok hq], K.of_rel inv' hrel hrc, ⟨hrel.1, fun i w' p hw' hp' => by
+        obtain ⟨w0, hw0, hr⟩ := hrel.back hw'; exact ⟨w0, hw0, by rw [← hr.1]; exact hp'⟩,
+        fun i w' hl' => by obtain ⟨w0, hl0, _⟩ := hrel.live_back hl'; exact ⟨w0, hl0⟩⟩⟩
+    · left; simp only [hh, Bool.false_eq_true, if_false]
+  case unbindSelf =>
+    cases self with
+    | none => left; rfl
+    | some p =>
+      obtain ⟨w, id⟩ := p
+      simp only
+      by_cases hh : (usableW st w && (getX st w).binds.any (fun b => b.id = id && b.used)) = true
+      · right
+        rw [if_pos hh]
+        simp only [Bool.and_eq_true] at hh
+        obtain ⟨⟨ww, hw⟩, _⟩ := usableW_spec K.inv.tinv hh.1
+        have hlt : w < st.wx.size := by rw [K.inv.wx_size]; exact hw.lt
+        generalize hx1 : ({ getX st w with binds := (getX st w).binds.map (fun b => if b.id = id then { b with used := false } else b) } : WinX) = x1
+        have hx1p : x1.pen = (getX st w).pen := by rw [← hx1]
+        have hx1a : x1.appRefs = (getX st w).appRefs := by rw [← hx1]
+        have K1 := K.setX_same w x1 hx1p hx1a
+        have hw1 : LiveW (setX st w x1).tree w ww := hw
+        have hg1 : getX (setX st w x1) w = x1 := getX_setX_self _ hlt
+        unfold unbindEvent
+        simp only [getW, get_live hw1, bind_ok, hg1]
+        by_cases hit : x1.iterating = true
+        · rw [if_pos hit]
+          simp only [pure_ok]
+          generalize hx2 : ({ x1 with binds := x1.binds.map (fun b => if b.id = id then { b with id := -1, ev := none } else b),
+                                      needsDelete := x1.needsDelete || x1.binds.any (fun b => b.id = id) } : WinX) = x2
+          have hx2p : x2.pen = (getX (setX st w x1) w).pen := by rw [← hx2, hg1]
+          have hx2a : x2.appRefs = (getX (setX st w x1) w).appRefs := by rw [← hx2, hg1]
+          exact ⟨_, rfl, K1.setX_same w x2 hx2p hx2a, Shr.of_tree rfl⟩
+        · rw [if_neg hit]
+          simp only [pure_ok]
+          generalize hx2 : ({ x1 with binds := x1.binds.filter (fun b => b.id ≠ id) } : WinX) = x2
+          have hx2p : x2.pen = (getX (setX st w x1) w).pen := by rw [← hx2, hg1]
+          have hx2a : x2.appRefs = (getX (setX st w x1) w).appRefs := by rw [← hx2, hg1]
+          exact ⟨_, rfl, K1.setX_same w x2 hx2p hx2a, Shr.of_tree rfl⟩
+      · left; rw [if_neg hh]
+
+theorem runActs_FK {cfg : Cfg} (R : Repaired cfg) {g : Ghost} (self : Id × Int) : ∀ (acts : List Act) {st : St}, FK g st →
+    ∃ st', runActs cfg self st acts = .ok st' ∧ FK g st' ∧ Shr st st'
+  | [], st, K => ⟨st, rfl, K, Shr.refl st⟩
+  | a :: rest, st, K => by
+    unfold runActs
+    rcases simpleOp_FK R K a (some self) with h | ⟨st1, h, K1, S1⟩
+    · simp only [h]
+      exact runActs_FK R self rest K
+    · simp only [h, bind_ok]
+      obtain ⟨st2, h2, K2, S2⟩ := runActs_FK R self rest K1
+      exact ⟨st2, h2, K2, S1.trans S2⟩
 
 end Tickit.Life
